@@ -174,8 +174,8 @@ func diffOnce(cs *core.Case, c *check.Ctx) diffResult {
 	ref := core.RunRef(cs, st)
 	r.nontrivial = !ref.Failed() && ref.NPoints() > 0
 	sym, det := core.Diff(ref, out.Res, false)
-	if sym != "" && hasK(cs.Q) && !strings.HasPrefix(sym, "err:") {
-		if tieEqual(ref, out.Res) {
+	if sym != "" && hasK(cs.Q) {
+		if !strings.HasPrefix(sym, "err:") && tieEqual(ref, out.Res) {
 			if c != nil {
 				c.Rep.Extra["tie_rule_accepted"]++
 			}
